@@ -94,7 +94,39 @@ COMPONENTS = [
       ('MC_hb2.cfg', 'ConcurrentObjectArena buffer size 1, table 2->4->8: operator[] / getBuffer on old elements while the table is doubled twice', 'thorough'),
       ('MC_hb_nb_rest.cfg', 'program with a concurrent numBuffers(): all locations except buffersPos_', 'quick'),
       ('MC_hbx_nb.cfg', 'numBuffers() ("Concurrency safe") vs allocateBuffer() (buffersPos_ atomic since the fix)', 'quick')]),
+    ('graph', 'spec/graph',
+     ['Graph.tla', 'MCGraph.tla', 'GraphHB.tla', 'MCGraphHB.tla'] + ['MC_hb%d.cfg' % i for i in range(1, 11)],
+     ['graph.h', 'detail/graph_executor_impl.h', 'graph_executor.cpp'], 'OrdersGraph', 'MCGraphHB.tla',
+     [('MC_hb1.cfg', 'Graph diamond, ConcurrentTaskSetExecutor, 3 threads', 'quick'),
+      ('MC_hb2.cfg', 'Graph diamond, ParallelForExecutor + SingleThreadExecutor, 3 threads (wave join)', 'quick'),
+      ('MC_hb7.cfg', 'Graph: 3 predecessors of one node (release sequence of 3 RMWs), cts + pf, 3 threads', 'quick'),
+      ('MC_hb8.cfg', 'BiPropGraph diamond (dependsOn/biPropDependsOn mixes), cts, 3 threads: GrLd + GrDec', 'quick'),
+      ('MC_hb9.cfg', 'BiPropGraph all 3-node graphs, cts, 2 evaluations with setIncomplete + ForwardPropagator (GrLd skips a completed dependent, data of an earlier evaluation)', 'quick'),
+      ('MC_hb10.cfg', 'Graph diamond, ParallelForExecutor, 2 evaluations (setIncomplete, ForwardPropagator / setAllNodesIncomplete)', 'thorough'),
+      ('MC_hb3.cfg', 'BiPropGraph all 3-node graphs, cts + pf, 2 evaluations', 'thorough'),
+      ('MC_hb4.cfg', 'Graph all 4-node DAGs, cts + pf, 2 threads', 'thorough'),
+      ('MC_hb5.cfg', 'Graph diamond, cts + pf, 3 threads, 2 evaluations with 2 marks', 'thorough'),
+      ('MC_hb6.cfg', 'BiPropGraph diamond + shortcut 1->4, cts + pf, 3 threads', 'thorough')]),
+    ('timedtask', 'spec/timedtask',
+     ['TimedTask.tla', 'MCTimedTask.tla', 'TimedTaskHB.tla', 'MCTimedTaskHB.tla', 'MC_hb1.cfg', 'MC_hb2.cfg', 'MC_hb3.cfg', 'MC_hb4.cfg'],
+     ['timed_task.h', 'timed_task.cpp', 'detail/timed_task_impl.h', 'detail/epoch_waiter.h'], 'OrdersTimedTask', 'MCTimedTaskHB.tla',
+     [('MC_hb1.cfg', 'TimedTask on ImmediateInvoker: run by creator/scheduler thread, re-arm, cancel, calls(), destructor, detach (last owner destroys impl), functor returning false, scheduler destroyed first (6 programs)', 'quick'),
+      ('MC_hb2.cfg', 'TimedTask on a pool thread: functor returns false (wrapper clears func vs next kick-off), calls()/destructor racing with runs', 'thorough'),
+      ('MC_hb3.cfg', 'pool: 3 runs due at once, first returns false; detached task on a pool, impl destroyed by last owner', 'thorough'),
+      ('MC_hb4.cfg', 'two tasks from two creating threads, queue holds two impls (comparator reads nextAbsTime), re-arm by creator, scheduler pops both', 'thorough')]),
+    ('pipeline', 'spec/pipeline',
+     ['Gate.tla', 'Pipeline.tla', 'PipelineHB.tla', 'MCPipelineHB.tla', 'MC_hb1.cfg', 'MC_hb2.cfg', 'MC_hb3.cfg', 'MC_hb4.cfg'],
+     ['detail/pipeline_impl.h', 'task_set.cpp', 'detail/task_set_impl.h', 'detail/completion_event_impl.h'],
+     'OrdersPipeline', 'MCPipelineHB.tla',
+     [('MC_hb1.cfg', 'pipeline serial stages: functor state handed over through resources_, backlog queue, inline continuation / force-queued continuation, caller helping, 0/1/2-thread pools, one-stage pipeline', 'quick'),
+      ('MC_hb3.cfg', 'pipeline with throwing generator / sink / unlimited stage, two generator instances: exception slot, cancelled set, discarded / dropped / skipped items', 'quick'),
+      ('MC_hb2.cfg', 'pipeline parallel (limit 2) and unlimited stages, every hand-over through the pool (never inline)', 'thorough'),
+      ('MC_hb4.cfg', 'pipeline serial->unlimited->serial, 3 items on 2 workers, limit-2 sink with 3 items, throwing limit-2 middle stage', 'thorough')]),
 ]
+# components whose orders cannot be seen by bin/extract_orders.py (the order is a function parameter chosen at the call
+# sites): the Orders module comes from a generator in the component's spec directory with the same command line; it exits
+# non-zero when a source pattern it relies on is missing
+GENERATORS = {'graph': 'spec/graph/hbgen.py'}
 # components whose code uses std::atomic_thread_fence: composed with spec/lib/MemOrderF.tla.  `tentative` cfgs additionally
 # count the discarded tentative reads of losing stealers: a violation there is replayed on the real deque and reported
 # (known finding: the formal race of Chase-Lev with plain slots).
@@ -139,7 +171,7 @@ def run(ctx):
         shutil.copy(os.path.join(vlib.ROOT, 'spec/lib/MemOrder.tla'), wd)
         shutil.copy(os.path.join(vlib.ROOT, 'spec/lib/MemOrderF.tla'), wd)
         srcs = [os.path.join(vlib.REPO, 'dispenso', s) for s in sources]
-        p = subprocess.run([sys.executable, os.path.join(vlib.ROOT, 'bin/extract_orders.py'), ordmod,
+        p = subprocess.run([sys.executable, os.path.join(vlib.ROOT, GENERATORS.get(comp, 'bin/extract_orders.py')), ordmod,
                             os.path.join(wd, ordmod + '.tla')] + srcs, stdout=subprocess.PIPE, stderr=subprocess.STDOUT, text=True)
         if p.returncode != 0:
             raise vlib.ToolError('extract_orders failed for %s: %s' % (comp, p.stdout[-2000:]))
